@@ -87,17 +87,38 @@ Theorem C10_exact_partial : forall af tags pre c0 sched,
   c0 = length pre ->
   (af = true \/ Forall write_all_keep sched) ->
   Forall enq_in_order sched ->
+  Forall notifies sched ->
   let s := run af tags (init pre c0) sched in
   alive s = true -> quiescent s = true -> dst s = expected tags (length pre) (log s).
 Proof. exact exact_partial. Qed.
 Print Assumptions C10_exact_partial.
 
+(* `Forall notifies sched`: every write that stored something sends its WriteEvent. The code's send
+   (partition.Service.onWriteEvent: `select { case s.weCh <- we: ... }`, channel of 100) BLOCKS when the channel is full --
+   in the model the writer stays in flight until its LEnq is scheduled, which every schedule may delay as long as it
+   likes. A send that gives up instead (label LDropEnq) loses events: the first notification of a source is skipped, the
+   next write's StartPos becomes the pipe's position for the source. *)
+Definition C10_exact_inorder_statement : Prop :=
+  forall tags pre sched, Forall enq_in_order sched ->
+    let s := run true tags (init pre (length pre)) sched in
+    alive s = true -> quiescent s = true -> dst s = expected tags (length pre) (log s).
+Theorem C10_exact_dropped_notification_refuted : ~ C10_exact_inorder_statement.
+Proof.
+  intros H.
+  pose (e1 := {| e_ts := 1%Z; e_msg := [x61]; e_flds := []; e_keep := true |}).
+  pose (e2 := {| e_ts := 2%Z; e_msg := [x62]; e_flds := []; e_keep := true |}).
+  specialize (H [] [] ([LWrite [e1]; LDropEnq 0; LFlush] ++ sched_write [e2])).
+  assert (Ho : Forall enq_in_order ([LWrite [e1]; LDropEnq 0; LFlush] ++ sched_write [e2])) by (repeat constructor).
+  specialize (H Ho). vm_compute in H. specialize (H eq_refl eq_refl). discriminate H.
+Qed.
+Print Assumptions C10_exact_dropped_notification_refuted.
+
 (* ... in particular for the code as it is (the filter is applied): no hypothesis on what is written *)
 Theorem C10_exact_code_partial : forall tags pre sched,
-  Forall enq_in_order sched ->
+  Forall enq_in_order sched -> Forall notifies sched ->
   let s := run code_applies_filter tags (init pre (length pre)) sched in
   alive s = true -> quiescent s = true -> dst s = expected tags (length pre) (log s).
-Proof. intros tags pre sched Ho. exact (exact_partial code_applies_filter tags pre _ sched eq_refl (or_introl eq_refl) Ho). Qed.
+Proof. intros tags pre sched Ho Hn. exact (exact_partial code_applies_filter tags pre _ sched eq_refl (or_introl eq_refl) Ho Hn). Qed.
 Print Assumptions C10_exact_code_partial.
 
 (* Many sources: in every product schedule (the steps of all sources interleaved arbitrarily), every source that is
@@ -106,15 +127,15 @@ Theorem C10_exact_multi : forall af tagss pres sched j,
   length tagss = length pres -> j < length pres ->
   let ss := prun af tagss (map (fun pre => init pre (length pre)) pres) sched in
   let s := nth j ss (init [] 0) in
-  (af = true \/ Forall write_all_keep (proj j sched)) -> Forall enq_in_order (proj j sched) ->
+  (af = true \/ Forall write_all_keep (proj j sched)) -> Forall enq_in_order (proj j sched) -> Forall notifies (proj j sched) ->
   alive s = true -> quiescent s = true ->
   dst s = expected (nth j tagss []) (length (nth j pres [])) (log s).
 Proof.
-  intros af tagss pres sched j Hlen Hj ss s Hf Ho.
+  intros af tagss pres sched j Hlen Hj ss s Hf Ho Hn.
   assert (Hs : s = run af (nth j tagss []) (init (nth j pres []) (length (nth j pres []))) (proj j sched)).
   { unfold s, ss. rewrite (prun_nth af tagss sched _ j (init [] 0) []) by (rewrite map_length; assumption).
     f_equal. change (init [] 0) with ((fun pre => init pre (length pre)) []). rewrite map_nth. reflexivity. }
-  rewrite Hs. exact (exact_partial af (nth j tagss []) (nth j pres []) _ (proj j sched) eq_refl Hf Ho).
+  rewrite Hs. exact (exact_partial af (nth j tagss []) (nth j pres []) _ (proj j sched) eq_refl Hf Ho Hn).
 Qed.
 Print Assumptions C10_exact_multi.
 
@@ -147,14 +168,15 @@ Theorem C10_restart : forall af tags pre c0 sched1 sched2,
   c0 = length pre ->
   (af = true \/ Forall write_all_keep (sched1 ++ LRestart :: sched2)) ->
   Forall enq_in_order (sched1 ++ LRestart :: sched2) ->
+  Forall notifies (sched1 ++ LRestart :: sched2) ->
   let s1 := run af tags (init pre c0) sched1 in
   let s := run af tags (init pre c0) (sched1 ++ LRestart :: sched2) in
   dst (step af tags s1 LRestart) = dst s1 /\
   (alive s = true -> quiescent s = true -> dst s = expected tags (length pre) (log s)).
 Proof.
-  intros af tags pre c0 sched1 sched2 Hc Hf Ho s1 s. split.
+  intros af tags pre c0 sched1 sched2 Hc Hf Ho Hn s1 s. split.
   - cbn [step]. destruct (quiescent s1 && alive s1); reflexivity.
-  - exact (exact_partial af tags pre c0 (sched1 ++ LRestart :: sched2) Hc Hf Ho).
+  - exact (exact_partial af tags pre c0 (sched1 ++ LRestart :: sched2) Hc Hf Ho Hn).
 Qed.
 Print Assumptions C10_restart.
 
@@ -165,7 +187,7 @@ Print Assumptions C10_restart.
    events written while no pipe of that name existed, none twice *)
 Theorem C10_recreate : forall af tags s1 sched,
   quiescent s1 = true ->
-  (af = true \/ Forall write_all_keep sched) -> Forall enq_in_order sched ->
+  (af = true \/ Forall write_all_keep sched) -> Forall enq_in_order sched -> Forall notifies sched ->
   let s := run af tags (recreate s1) sched in
   alive s = true -> quiescent s = true -> dst s = expected tags (length (log s1)) (log s).
 Proof. exact recreate_exact. Qed.
@@ -174,13 +196,13 @@ Print Assumptions C10_recreate.
 (* The same over the variant flag of recreate_v: do the positions of the deleted pipe reach the pipe created later under
    its name? (The model has no state file; the flag is what the file contributes, see model/PipeSync.v.) *)
 Definition C10_recreate_statement (survives : bool) : Prop :=
-  forall tags s1 sched, quiescent s1 = true -> Forall enq_in_order sched ->
+  forall tags s1 sched, quiescent s1 = true -> Forall enq_in_order sched -> Forall notifies sched ->
     let s := run true tags (recreate_v survives s1) sched in
     alive s = true -> quiescent s = true -> dst s = expected tags (length (log s1)) (log s).
 
 (* the code (ppipe.saveState refuses to save for a deleted pipe: what onDeleteStream removed stays removed) *)
 Theorem C10_recreate_code : C10_recreate_statement code_state_survives_delete.
-Proof. intros tags s1 sched Hq Ho. exact (recreate_exact true tags s1 sched Hq (or_introl eq_refl) Ho). Qed.
+Proof. intros tags s1 sched Hq Ho Hn. exact (recreate_exact true tags s1 sched Hq (or_introl eq_refl) Ho Hn). Qed.
 Print Assumptions C10_recreate_code.
 
 (* the code before that repair, when a worker of the deleted pipe saved its position after the removal: a pipe copies
@@ -194,7 +216,8 @@ Proof.
   pose (s1 := run true [] (init [] 0) (sched_write [e 1%Z; e 2%Z] ++ [LDelete] ++ sched_write [e 3%Z] ++ [LWork; LWork])).
   specialize (H [] s1 (sched_write [e 4%Z])).
   assert (Ho : Forall enq_in_order (sched_write [e 4%Z])) by (repeat constructor).
-  vm_compute in H. specialize (H eq_refl Ho eq_refl eq_refl). discriminate H.
+  assert (Hn : Forall notifies (sched_write [e 4%Z])) by (repeat constructor).
+  vm_compute in H. specialize (H eq_refl Ho Hn eq_refl eq_refl). discriminate H.
 Qed.
 Print Assumptions C10_recreate_stale_refuted.
 
@@ -203,7 +226,7 @@ Print Assumptions C10_recreate_stale_refuted.
    exactly the matching events of the new partition, in order (model: drop_source). *)
 Theorem C10_drop_source : forall af tags s1 sched,
   alive s1 = true ->
-  (af = true \/ Forall write_all_keep sched) -> Forall enq_in_order sched ->
+  (af = true \/ Forall write_all_keep sched) -> Forall enq_in_order sched -> Forall notifies sched ->
   let s := run af tags (drop_source s1) sched in
   alive s = true -> quiescent s = true -> dst s = dst s1 ++ expected tags 0 (log s).
 Proof. exact drop_source_exact. Qed.
